@@ -293,6 +293,30 @@ def check_flows(pp, ledger, layout_label, layout, b, full_units, memo):
     return vs, q, 0
 
 
+def renamed_objects(program):
+    """Declared names whose container is renamed inside the recipe (dilute(new_name=...)) -> index of the renaming step."""
+    return {e1.refname(a['obj']): i for i, a in enumerate(program) if a['op'] == 'dilute' and a.get('new_name')}
+
+
+def reclassify_renamed(program, records):
+    """Known finding (DESIGN 5, row 26): tracking is keyed by container NAME, so a container renamed inside the recipe is
+    lost to get_substance_used / get_container_flows / get_amount_remaining. Every violation whose query involves such a
+    container is reported under one signature per query function; everything else keeps its own signature."""
+    ren = renamed_objects(program)
+    if not ren:
+        return records
+    out = []
+    for sig, msg, case, exp, got in records:
+        q = case.get('query') or []
+        involved = any(n in ren for part in q[1:3] if isinstance(part, str) for n in part.split('+')) or \
+            (q and q[0] == 'used' and q[2] == 'all-used')
+        if involved:
+            fn = sig.split(' | ')[0]
+            sig = f"{fn} | renamed-container | recipe.dilute(new_name=...)"
+        out.append((sig, msg, case, exp, got))
+    return out
+
+
 def analyze(item):
     """One program under every stage layout. Returns (violation records, queries, dont-care, classes)."""
     which, prog_idx = item
@@ -322,6 +346,7 @@ def analyze(item):
                          {'vidx': vidx, 'program': program, 'layout': label, 'query': None}))
             continue
         vs, q, dc = fn(pp, ledger, label, layout, b, label == 'per-step', memo)
+        vs = reclassify_renamed(program, vs)
         queries += q
         dcs += dc
         for sig, msg, case, exp, got in vs:
